@@ -469,7 +469,8 @@ fn run_arena(case: &Case, attempts: NonZeroUsize) -> Result<(), String> {
 
 fn run_encoder(case: &Case, attempts: NonZeroUsize) -> Result<(), String> {
     // prefix ends in FE so that a byte is held back across the read
-    let prefix: &[u8] = &[0x61, 0xFE];
+    // (mid-size counts: no byte is held back, so that nothing but the bytes read lands in their chunk)
+    let prefix: &[u8] = if (65..=300).contains(&case.count) { &[0x61, 0x62] } else { &[0x61, 0xFE] };
     let suffix: &[u8] = &[0xFD, 0x62];
     let src = source(case.count);
     let mut enc = Encoder::new();
@@ -480,6 +481,16 @@ fn run_encoder(case: &Case, attempts: NonZeroUsize) -> Result<(), String> {
     }
     let mut reader = ScriptReader::new(&case.script, src);
     let mut message = prefix.to_vec();
+    let mid = (65..=300).contains(&case.count);
+    if mid && case.arena == ArenaState::RemainingCountMinus1 {
+        // the arena's current chunk filled by the encoder's OWN small copies (not by reads through the
+        // arena) until less than half the count is left: the read buffer opens the next chunk
+        enc.consumer().arena().ensure_capacity(1);
+        while enc.consumer().arena().remaining() > case.count / 2 {
+            enc.encode_copy(b"x");
+            message.push(b'x');
+        }
+    }
     match case.entry {
         Entry::EncoderReadN => {
             let got = enc.read_n(&mut reader, case.count, attempts);
@@ -503,7 +514,16 @@ fn run_encoder(case: &Case, attempts: NonZeroUsize) -> Result<(), String> {
             // error, a short read): the reader now has data; it must be called, and what it
             // delivers must be encoded.  (A source that was at end of file a moment ago may have
             // grown: a log being tailed.)
-            if (65..=300).contains(&case.count) {
+            if mid && case.arena == ArenaState::RemainingCountMinus1 {
+                // ... and a large read right behind it does not fit in that chunk either: the arena moves
+                // on with nothing but the bytes read in the chunk it leaves
+                let big = &source(20_000)[1000..21_000];
+                let n = enc.encode_read(ScriptReader::new(&[Sym::DAll], big), big.len(), NonZeroUsize::MAX).map_err(|e| format!("follow-up encode_read failed: {}", e))?;
+                if n != big.len() {
+                    return Err(format!("follow-up encode_read returned {} of {}", n, big.len()));
+                }
+                message.extend_from_slice(big);
+            } else if mid {
                 // mid-size reads: the arena lets go of its current chunk right after the read, with no
                 // other allocation in between (the bytes read must be kept alive by the output alone)
                 enc.consumer().arena().flush_cache();
